@@ -112,7 +112,12 @@ def shower_job(job):
             a = [x[order] for x in a]
         with rngmod.constant(c):
             return np.asarray(radio(*[buf(str(j), x) for j, x in enumerate(a)]), dtype=float)
-    ef1, ef3 = fields(Esh), fields(3.0 * Esh)
+    if job.get("int_energy"):
+        # whole-number shower energies held in an INTEGER array (units of 100 PeV): 3 E is then also an integer array
+        Esh = np.asarray(rng.integers(1, 40, n), dtype=np.int64)
+        ef1, ef3 = fields(Esh), fields(3 * Esh)
+    else:
+        ef1, ef3 = fields(Esh), fields(3.0 * Esh)
     order = rng.permutation(n)
     efp = fields(Esh, order)
     back = np.empty_like(efp)
@@ -226,6 +231,7 @@ def run(tier="quick", seed=0):
     for i, s in enumerate(specs):
         for rep in range(3 if thorough else 1):
             jobs.append({"t": "shower", "spec": s, "seed": seed * 10 + i + 100 * rep, "n": 300 if thorough else 120, "c": [0.21, 0.5, 0.83][rep]})
+    jobs.append({"t": "shower", "spec": specs[0], "seed": seed * 10 + 77, "n": 60, "c": 0.41, "int_energy": True})
     jobs.append({"t": "scale", "spec": {"altitude": 33.0, "limb": 0.05, "log_e": 10.0}, "seed": seed + 7, "n": 200, "c": 0.37, "ncases": 240 if thorough else 60})
     res = par.pmap(_dispatch, jobs, workers=14)
     ev = [e for r in res for e in r]
